@@ -68,6 +68,16 @@ func c19Scenarios(tier string) []Scenario {
 			}
 		}
 	}
+	// operation history: an earlier call in the same process whose output was refused, then the fault on the
+	// first write of this call (an error must be reported every time, not only the first time in a process)
+	for _, b := range c19Bases() {
+		s := b
+		s.Call.PriorFailedCall = true
+		s.FaultK, s.Persist = 1, true
+		s.Name = fmt.Sprintf("%s/after-a-failed-call/write1/persist=true", b.Name)
+		s.Mode = "D1M0" // (goroutines the failed call left behind are still there: delay-bounded)
+		out = append(out, s)
+	}
 	// long inputs (beyond the channel buffers): faults at the first, every 10th and the last write,
 	// explored with at most one non-default scheduling choice
 	for _, b := range c12BigScenarios() {
